@@ -14,6 +14,8 @@ impl InstructionGenerator {
         self.generate_eval_select_case_expr(expr, pos);
         self.generate_case_blocks(case_blocks, else_block.is_some(), pos);
         self.generate_else_block(else_block, pos);
+        // to be able to resume after an error at the last statement of the CASE ELSE block
+        self.mark_statement_address();
         // all paths end up here (matched CASE blocks jump to it)
         self.label(labels::end_select(), pos);
         // need to pop value from stack because it was pushed by `generate_eval_select_case_expr`
@@ -63,6 +65,8 @@ impl InstructionGenerator {
             self.select_depth += 1;
             self.visit(statements);
             self.select_depth -= 1;
+            // to be able to resume after an error at the last statement of the block
+            self.mark_statement_address();
             // jump out of SELECT
             self.jump(labels::end_select(), pos);
         }
